@@ -199,13 +199,55 @@ def must_hit(lines):
     return None
 
 
+def gen_bidx(rng, tier):
+    """blob index pages byte by byte: entries with extreme field values, a reused (non-zero) page buffer, one byte of the
+    sealed page changed - in the checksum field, the count, an entry, the unused rest"""
+    out = []
+    for _ in range(600 if tier == "thorough" else 60):
+        I = rng.choice([4096, 4096, 8192])
+        cap = (I - 12) // 24
+        n = rng.choice([0, 1, 2, 3, cap - 1, cap, rng.randrange(0, cap + 1)])
+        def u(bits):
+            return rng.choice([0, 1, 2 ** bits - 1, 2 ** (bits - 1), rng.randrange(2 ** bits), rng.randrange(2 ** 16)])
+        ents = "/".join(f"{u(64)}.{u(64)}.{u(32)}.{u(32)}" for _ in range(n))
+        where = rng.choice(["ck", "count", "count", "entry", "rest", "any"])
+        if where == "ck":
+            pos = rng.randrange(0, 8)
+        elif where == "count":
+            pos = rng.randrange(8, 12)
+        elif where == "entry" and n:
+            pos = rng.randrange(12, 12 + 24 * n)
+        elif where == "rest" and 12 + 24 * n < I:
+            pos = rng.randrange(12 + 24 * n, I)
+        else:
+            pos = rng.randrange(0, I)
+        out.append(f"bidx I={I} fill={rng.choice([0, 0, 255, rng.randrange(256)])} ents={ents} flip={pos}:{rng.choice([1, 128, 255, rng.randrange(1, 256)])}")
+    return out
+
+
+def oracle_bidx(line):
+    k = G.kv(line.partition("|")[0]); o = G.kv(G.obs(line))
+    if G.obs(line) == "PANIC":
+        return "BlobIndex::write / seal / BlobIndexReader::read panicked on a page within its capacity"
+    if o.get("read") != "ok:" + k.get("ents", ""):
+        return f"the sealed index page does not read back as the entries written: {o.get('read', '')[:120]}"
+    if o.get("dmg") != "reject":
+        pos = int(k["flip"].split(":")[0])
+        part = "checksum field" if pos < 8 else "entry count" if pos < 12 else "entries / rest of the page"
+        return f"an index page with one byte changed (byte {pos}: {part}) is not rejected: {o.get('dmg', '')[:120]}"
+    return None
+
+
 def run(pid, tier, seed, gate, replay=None):
     C.build_ocaml()
     C.build_harness(["fmt"])
     rng = random.Random(seed * 1000 + 7)
     scripts = [json.load(open(replay))["script"]] if replay else gen(rng, tier)
     flat = [l for s in scripts for l in s]
-    impl = G.run_fmt(flat)
+    bidx_replay = bool(replay) and flat[0].startswith("bidx ")
+    if bidx_replay:
+        scripts = [["splitnew B=65536 I=4096"]]
+    impl = G.run_fmt([l for s in scripts for l in s])
     model = G.run_model(impl)
     res, i = [], 0
     for s in scripts:
@@ -232,6 +274,23 @@ def run(pid, tier, seed, gate, replay=None):
             flags[f] = flags.get(f, 0) + 1
         if fl:
             nontrivial.add(" ".join(s))
+    # the index page byte by byte (Disk/BlobIndex.v): seal / read round trip and one changed byte, model vs implementation
+    bidx_fail, bidx_mism, bidx_n, bidx_where = None, None, 0, {}
+    if not replay or bidx_replay:
+        bl = flat if replay else gen_bidx(random.Random(seed * 1000 + 77), tier)
+        bi = G.run_fmt(bl)
+        bm = G.run_model([x for x in bi if G.obs(x) != "PANIC"])
+        bmd = {x.partition("|")[0].strip(): G.obs(x) for x in bm}
+        bidx_n = len(bl)
+        for x in bi:
+            pos = int(G.kv(x.partition("|")[0])["flip"].split(":")[0])
+            w = "checksum" if pos < 8 else "count" if pos < 12 else "entries/rest"
+            bidx_where[w] = bidx_where.get(w, 0) + 1
+            o = oracle_bidx(x)
+            if o and not bidx_fail:
+                bidx_fail = (x.partition("|")[0].strip(), x[:600], o)
+            elif not o and bmd.get(x.partition("|")[0].strip()) != G.obs(x) and not bidx_mism:
+                bidx_mism = (x.partition("|")[0].strip(), x[:600], (bmd.get(x.partition("|")[0].strip()) or "")[:600])
     # end to end: multi-blob blocks written, reclaimed and reused through the real store, then a restart; the scan must
     # reconstruct the current generation of every block and nothing of the previous one
     e2e_fail, e2e_n = None, 0
@@ -292,6 +351,15 @@ def run(pid, tier, seed, gate, replay=None):
             if bad and not scan_bad:
                 scan_bad = (sc, lines, bad)
     violations = []
+    if bidx_fail:
+        rp = C.write_replay(pid, seed, "bidx", dict(property=pid, stream="fmt/bidx", script=[bidx_fail[0]], impl_obs=[bidx_fail[1]],
+                                                   oracle=dict(failed_at=0, what=bidx_fail[2]), broken=None))
+        violations.append(dict(replay=rp, what=bidx_fail[2]))
+    elif bidx_mism:
+        rp = C.write_replay(pid, seed, "bidx", dict(property=pid, stream="fmt/bidx", script=[bidx_mism[0]], impl_obs=[bidx_mism[1]],
+                                                   model_obs=[bidx_mism[2]], oracle=None,
+                                                   broken="correspondence fmt/bidx (Disk/BlobIndex.v bidx_page / bidx_read vs BlobIndex / BlobIndexReader)"))
+        violations.append(dict(replay=rp, nofail=True, what="blob index page model and implementation differ"))
     if e2e_fail and not failing:
         sc, lines, o = e2e_fail
         rp = C.write_replay(pid, seed, "e2e", dict(property=pid, stream="hybridsim/reuse", script=sc, impl_obs=lines[-400:],
@@ -324,5 +392,6 @@ def run(pid, tier, seed, gate, replay=None):
         samples=[dict(script=scripts[0], impl=[G.obs(x)[:300] for x in res[0][0]])],
         traces_validated_against_impl=len(scripts) - len(mism) - len(failing),
         device_blocks_scanned_by_the_extracted_scanner=scan_blocks,
+        index_pages_sealed_read_and_damaged=bidx_n, index_page_damage_positions=bidx_where,
         input_distribution=dict(situations=flags), exhaustive=False)
     return cov, violations, ASSUME
